@@ -18,7 +18,7 @@ EXT_MUTANTS = ["upsertReplacesAll", "setByUrlDropsOthers", "appendDedups", "unwr
 WRAP_MUTANTS = ["snakeIgnoresDigits", "noKeywordRule", "slotCollision", "unwrapCopies", "bundleReverses"]
 OWNERS = ["Patient", "HumanName", "String", "Contact"]
 XTYPES = ["Reference", "Identifier", "Coding", "Extension", "string", "dateTime"]
-MODEL_RES = ["MR1", "MR2", "MR3", "MR4"]
+MODEL_RES = ["MR1", "MR2", "MR3", "MR4", "C20_X1", "C20_X2", "C20_X3", "C20_X4", "C20_X5"]
 JUDGE_CHUNK = 40000
 
 
@@ -56,7 +56,50 @@ def random_behaviours(rng, n):
     return out
 
 
+def case_of(o):
+    """Rebuild the case an observation came from (for --replay)."""
+    k = o["kind"]
+    if k == "beh":
+        cid, owner = o["id"].rsplit("/", 1)
+        return {"id": cid, "kind": "beh", "owners": [owner],
+                "steps": [{"step": s["step"], "pre": s["pre"], "preheld": s["preheld"]} for s in o["steps"]]}
+    if k in ("res", "extval"):
+        return {"id": o["id"], "kind": k, "t": o["t"]}
+    if k == "bundle":
+        return {"id": o["id"], "kind": k, "ts": o["ts"]}
+    res, form = o["tree"].split("~", 1)
+    return {"id": o["id"].rsplit("/", 1)[0], "kind": "extract", "res": res, "form": form, "T": o["T"]}
+
+
+def replay(ctx):
+    import json
+    rec = json.load(open(ctx.replay))
+    o = rec.get("observation")
+    if not o:
+        raise D.Inconclusive("replay file has no observation")
+    binary = D.build_harness(ctx, "c20")
+    schema = ctx.path("C20Schema.tla")
+    D.run_harness(ctx, binary, ["schema", schema])
+    D.stage_spec(ctx, extra_files=[schema])
+    D.write_ndjson(ctx.path("cases.ndjson"), [case_of(o)])
+    D.run_harness(ctx, binary, ["run", ctx.path("cases.ndjson"), ctx.path("obs.ndjson"), ctx.path("trees.json")])
+    obs = D.read_ndjson(ctx.path("obs.ndjson"))
+    verdicts = judge_all(ctx, obs)
+    D.check_complete(verdicts, obs)
+    mine = [v for v in verdicts if v["id"] == o["id"]] or verdicts
+    known = D.load_known(ctx.prop)
+    rc = 0
+    for v in mine:
+        status = "ok" if v["ok"] else ("known finding" if D.match_known(known, v["sig"]) else "VIOLATION")
+        print("replay %s: %s %s" % (v["id"], status, v["sig"]))
+        if status == "VIOLATION":
+            rc = 1
+    return rc
+
+
 def run(ctx):
+    if getattr(ctx, "replay", None):
+        return replay(ctx)
     quick = ctx.tier == "quick"
     rng = random.Random(ctx.seed)
     binary = D.build_harness(ctx, "c20")
@@ -100,7 +143,7 @@ def run(ctx):
     for m in (WRAP_MUTANTS[:2] if quick else WRAP_MUTANTS):
         D.mutant_twin(ctx, "C20_MC", "C20_mut_%s.cfg" % m, m)
     # seeded variants of the model resources (derived Go-side from the seed in `form`)
-    nvar = 8 if quick else 120
+    nvar = 6 if quick else 40
     for r in MODEL_RES:
         for s in sorted(ctx.seed * 100000 + x for x in rng.sample(range(100000), nvar)):
             for t in XTYPES:
